@@ -803,7 +803,7 @@ class ShapedEncoding(LazyIndexMap):
         return self._data.dense.reshape(self.shape)
 
     def mask(self, mask):
-        return self._data.mask(mask.flat)
+        return self._data.mask(mask.reshape((-1,)))
 
     def copy(self):
         return ShapedEncoding(encoding=self._data.copy(), shape=self.shape)
